@@ -159,6 +159,8 @@ def project(prop, op, line):
     outside it is another property's business"""
     if line.startswith("crash") or line in ("skipped", "bad-op"):
         return line
+    if op == "rewrite":
+        return "rv=0" if line.startswith("rv=0") else line
     head, secs = sections(line)
     S = [parse_S(s) for s in secs if s.startswith("S:") and not s.endswith(":-")]
     C = [parse_C(s) for s in secs if s.startswith("C") and not s.endswith(":gone")]
@@ -349,3 +351,35 @@ def generic_history(exe, rng, idx, emph, cfg=None):
     for k in range(h.ncl):
         h.send("pop %d" % k)
     return h.finish(kind="generic")
+
+
+def rewrite_history(exe, rng, idx):
+    """the rewriting stage alone: three generated blocks for one vendor, applied to crafted attribute lists
+    (Vendor-Specific payloads: well-formed, empty, 1-3 octets, trailing octet, zero-length sub-attributes)"""
+    cfg = W.rand_cfg(rng, rewrites=False, nclients=1, nservers=1)
+    vend = rng.choice([311, 9, 27262])
+    for i in range(3):
+        cfg.rewrites.append(W.rand_rewrite(rng, "rw%d" % i, vendors=(vend,), grow=True))
+    h = Hist(exe, rng, cfg)
+    for _ in range(rng.randrange(10, 40)):
+        if h.s.dead:
+            break
+        attrs = []
+        for _a in range(rng.randrange(1, 5)):
+            if rng.random() < 0.6:
+                subs = b"".join(bytes([rng.choice([1, 2, 16, 17, rng.randrange(256)]), len(v) + 2]) + v
+                                for v in [R.rand_bytes(rng, rng.choice([0, 1, 3, 10, 100, 126, 127, 240])) for _s in range(rng.randrange(0, 4))])
+                body = (vend if rng.random() < 0.8 else rng.randrange(1 << 24)).to_bytes(4, "big") + subs
+                if rng.random() < 0.3:
+                    body += bytes([rng.randrange(256)])
+                if rng.random() < 0.1:
+                    body = body[:rng.randrange(0, 6)]
+                attrs.append((26, body[:253]))
+            else:
+                a = R.rand_attr(rng)
+                if rng.random() < 0.3:
+                    a = (a[0], bytes(rng.choice(b"ab@local.xyz\x00") for _c in range(rng.choice([0, 1, 5, 84, 85, 126, 127, 128, 253]))))
+                attrs.append(a)
+        h.send("rewrite rw%d %s" % (rng.randrange(3), " ".join("%d:%s" % (t, R.hexs(v)) for t, v in attrs)))
+        h.tag("forwarded")
+    return h.finish(kind="rewrite")
